@@ -100,4 +100,18 @@ def pairUp : List Int → List (Int × Int)
   | a :: b :: rest => (a, b) :: pairUp rest
   | _ => []
 
+/-- the record of `xTimelineEpoch` (instrument/traj.py), fields named as in the source -/
+structure Epoch where
+  start_met : Int
+  stop_met : Int
+  in_saa : Bool
+  occulted : Bool
+  deriving Repr, DecidableEq
+
+/-- `0.5 * x` on ticks: exact when `x` is even (the epoch centre of two even marks) -/
+def half (x : Int) : Int := x / 2
+
+/-- `enumerate(a)` -/
+def enumerate (a : List Int) : List (Int × Int) := (List.range a.length).zip a |>.map fun p => ((p.1 : Int), p.2)
+
 end Np
